@@ -92,37 +92,34 @@ def run_r1(ctx, rule):
             on_path = c.reachable_from(c.succ[rbb][0] if c.succ[rbb] else rbb) & set(x for x in loops[h] if a in c.reachable_from(x))
             st = [(bi, name) for (ff2, bi, si, name) in util.field_stores(facts, "flussab::deferred_reader::DeferredReader") if ff2 is f and bi in on_path]
             rule.check(not st, "request_more/interrupted-identity", "the Interrupted retry stores to no reader field (identity transfer); stores: %s" % st, f.loc(a))
-    # (c) every non-Interrupted arm leaves: request_more is called from loops only behind "not enough data"
-    for cold, cmpf in ((DR + "request_byte_at_offset_cold", ("Le", "valid_len", 2)), (DR + "request_cold", ("Lt", "valid_len", 2))):
-        cf = facts.fn([i for i in facts.fns if norm(i) == cold][0]) if [i for i in facts.fns if norm(i) == cold] else None
-        if cf is None:
-            rule.bad("%s/missing" % cold, "anchor missing: " + cold, kind="anchor-missing")
+    # (c) request_more is called only where the buffered data falls short of what the caller asked for: every call
+    # site inside the reader (hot path, cold path or a merged form of the two) sits behind `valid_len < n` /
+    # `valid_len <= offset` for the function's own argument
+    n_sites = 0
+    for cid, cf in sorted(facts.fns.items()):
+        if cf.crate in ("ext", "promoted") or not norm(cid).startswith(DR) or norm(cid) == home:
             continue
         for bb, t2 in util.calls_in(cf, lambda n: n == home):
-            op, fld, arg = cmpf
-            ff = guards.holds(cf, bb, lambda fa: guards.cmp_matches(fa, op, lambda x: x == ("f", ("l", 1), fld), lambda x: x == ("l", arg)))
-            rule.check(bool(ff), "%s/refill-guard" % short(cold), "%s refills only when the buffered data does not satisfy the request (%s)" % (short(cold), guards.show_fact(cf, ff[1]) if ff else "guard not found"), cf.loc(bb))
-    for hot, coldn, cmpf in (
-        (DR + "request_byte_at_offset", DR + "request_byte_at_offset_cold", ("Ge", 2, "valid_len")),
-        (DR + "request", DR + "request_cold", ("Lt", "valid_len", 2)),
-    ):
-        ids = [i for i in facts.fns if norm(i) == hot]
-        if not ids:
-            rule.bad("%s/missing" % hot, "anchor missing: " + hot, kind="anchor-missing")
+            n_sites += 1
+            ff = guards.holds(cf, bb, lambda fa: (guards.cmp_matches(fa, "Lt", lambda x: x == ("f", ("l", 1), "valid_len"), lambda x: x[0] == "l" and 2 <= x[1] <= cf.argc)
+                                                   or guards.cmp_matches(fa, "Le", lambda x: x == ("f", ("l", 1), "valid_len"), lambda x: x[0] == "l" and 2 <= x[1] <= cf.argc)))
+            rule.check(bool(ff), "%s/refill-guard" % short(norm(cid)), "%s refills only when the buffered data does not satisfy the request (%s)" % (short(norm(cid)), guards.show_fact(cf, ff[1]) if ff else "guard not found"), cf.loc(bb))
+    # ... and the same holds one level up: a reader function that hands over to a refilling helper does so only when
+    # its own argument is not satisfied, and passes that argument on unchanged
+    refillers = set(norm(cid) for cid, cf in facts.fns.items() if cf.crate not in ("ext", "promoted") and norm(cid).startswith(DR) and norm(cid) != home and util.calls_in(cf, lambda n: n == home))
+    for cid, cf in sorted(facts.fns.items()):
+        if cf.crate in ("ext", "promoted") or not norm(cid).startswith(DR):
             continue
-        hf = facts.fns[ids[0]]
-        sites2 = util.calls_in(hf, lambda n: n == coldn)
-        if not sites2:
-            rule.bad("%s/no-cold" % short(hot), "%s no longer defers to its cold path" % short(hot), hf.loc(), kind="anchor-missing")
-        for bb, t2 in sites2:
-            if cmpf[0] == "Ge":
-                ff = guards.holds(hf, bb, lambda fa: guards.cmp_matches(fa, "Ge", lambda x: x == ("l", 2), lambda x: x == ("f", ("l", 1), "valid_len")))
-            else:
-                ff = guards.holds(hf, bb, lambda fa: guards.cmp_matches(fa, "Lt", lambda x: x == ("f", ("l", 1), "valid_len"), lambda x: x == ("l", 2)))
-            rule.check(bool(ff), "%s/cold-guard" % short(hot), "%s takes the refilling path only when the buffer falls short (%s)" % (short(hot), guards.show_fact(hf, ff[1]) if ff else "guard not found"), hf.loc(bb))
-        # the hot function itself must not call request_more / read
-        direct = util.calls_in(hf, lambda n: n == home)
-        rule.check(not direct, "%s/direct-refill" % short(hot), "%s does not refill on its fast path" % short(hot), hf.loc())
+        sy2 = sym(cf)
+        for bb, t2 in util.calls_in(cf, lambda n: n in refillers and n != norm(cid)):
+            params = [a for a in (sy2.operand(x) for x in t2["args"][1:]) if a[0] == "l" and 2 <= a[1] <= cf.argc]
+            ok_arg = len(params) == len(t2["args"]) - 1 and len(params) >= 1
+            ff = ok_arg and guards.holds(cf, bb, lambda fa: any(
+                guards.cmp_matches(fa, "Lt", lambda x: x == ("f", ("l", 1), "valid_len"), lambda x: x == pa)
+                or guards.cmp_matches(fa, "Le", lambda x: x == ("f", ("l", 1), "valid_len"), lambda x: x == pa) for pa in params))
+            rule.check(bool(ff), "%s/cold-guard" % short(norm(cid)), "%s hands over to %s only when the buffer falls short of its own argument, which it passes on unchanged (%s)" % (short(norm(cid)), short(util.cname(t2)), guards.show_fact(cf, ff[1]) if ff else ("argument changed" if not ok_arg else "guard not found")), cf.loc(bb))
+    if n_sites < 2:
+        rule.bad("refill/sites", "only %d refill call sites found in the reader (2 counted: byte look-ahead and bulk request)" % n_sites, kind="anchor-missing")
     # explicit bulk requests are not used by the tokenizers (they would wait for a fixed amount of data)
     for f2, bb2, t2 in util.calls_to(facts, lambda n: n in (DR + "request", DR + "set_chunk_size")):
         if f2.crate == "flussab" and norm(f2.id).startswith(DR):
@@ -131,8 +128,8 @@ def run_r1(ctx, rule):
     # who calls request_more at all
     for f2, bb2, t2 in util.calls_to(facts, lambda n: n == home):
         n2 = norm(f2.id)
-        ok = n2 in (DR + "request_byte_at_offset_cold", DR + "request_cold")
-        rule.check(ok, "%s/calls-request_more" % n2, "request_more is called only from the two cold refill loops (caller %s)" % short(n2), f2.loc(bb2))
+        ok = n2.startswith(DR) and f2.crate == "flussab"
+        rule.check(ok, "%s/calls-request_more" % n2, "request_more is called only from inside the reader, behind the guards above (caller %s)" % short(n2), f2.loc(bb2))
 
 
 class LastLook(Auto):
@@ -233,7 +230,7 @@ def run_r3(ctx, rule):
 
 
 def run(ctx):
-    r1 = ctx.rule("C09-R1", "single guarded Read::read; refill only when the buffer falls short; Interrupted is the only retry", floor=10)
+    r1 = ctx.rule("C09-R1", "single guarded Read::read; refill only when the buffer falls short; Interrupted is the only retry", floor=8)
     run_r1(ctx, r1)
     r2 = ctx.rule("C09-R2", "every streaming API success return is reached with the last look-ahead answer = LF or end of input", floor=60)
     run_r2(ctx, r2)
